@@ -9,6 +9,7 @@ import (
 	"log"
 	"log/slog"
 	"os"
+	"sort"
 	"sync"
 	"sync/atomic"
 	"time"
@@ -599,8 +600,9 @@ type runResult struct {
 	Final    *PlanImg `json:"final"`
 	WaitErr  string   `json:"waitErr,omitempty"`
 	TimedOut bool     `json:"timedOut,omitempty"`
-	Late     []Event  `json:"late,omitempty"` // events observed after Wait returned (within the settle window)
-	AtWait   int64    `json:"atWait"`         // sequence number of the release event
+	Late     []Event  `json:"late,omitempty"`    // events observed after Wait returned (within the settle window)
+	AtWait   int64    `json:"atWait"`            // sequence number of the release event
+	Unended  []Event  `json:"unended,omitempty"` // plugin calls still executing 500 ms after the plan ended (short-timeout plans only)
 }
 
 // startAndWait starts plan p and waits for it (bounded); returns the trace and the stored final plan.
@@ -659,6 +661,16 @@ func (e *engineEnv) startAndWait(p *workflow.Plan, planNo int, maxWait, settle t
 	}
 	tr := e.tr.snapshot()
 	res.AtWait = int64(len(tr))
+	// plans with short action timeouts: calls the engine abandoned must end soon after (their context is cancelled). Give the
+	// plugin goroutines up to 500 ms to be scheduled and log their exit; what has not ended by then never will.
+	if hasShortTimeouts(p) {
+		for i := 0; i < 100; i++ {
+			if res.Unended = unendedCalls(e.tr.snapshot(), planNo); len(res.Unended) == 0 {
+				break
+			}
+			time.Sleep(5 * time.Millisecond)
+		}
+	}
 	if settle > 0 {
 		time.Sleep(settle)
 		all := e.tr.snapshot()
@@ -682,6 +694,42 @@ func quietLogs() {
 		slog.SetDefault(slog.New(slog.NewTextHandler(os.Stderr, &slog.HandlerOptions{Level: slog.LevelError + 1})))
 		log.SetOutput(os.Stderr)
 	}
+}
+
+func hasShortTimeouts(p *workflow.Plan) bool {
+	short := false
+	for item := range walk.Plan(p) {
+		if a, ok := item.Value.(*workflow.Action); ok && a.Timeout > 0 && a.Timeout < time.Second {
+			short = true
+		}
+	}
+	return short
+}
+
+// unendedCalls: enter events of the plan without a matching exit
+func unendedCalls(tr []Event, planNo int) []Event {
+	type key struct {
+		tag  string
+		call int
+	}
+	open := map[key]Event{}
+	for _, e := range tr {
+		if e.Plan != planNo {
+			continue
+		}
+		switch e.L {
+		case "enter":
+			open[key{e.Tag, e.Call}] = e
+		case "exit":
+			delete(open, key{e.Tag, e.Call})
+		}
+	}
+	var out []Event
+	for _, e := range open {
+		out = append(out, e)
+	}
+	sort.Slice(out, func(i, j int) bool { return out[i].N < out[j].N })
+	return out
 }
 
 var inflightHigh atomic.Int64
